@@ -348,7 +348,7 @@ pub fn spec(id: &str) -> Option<Spec> {
                    pre-written into the hint's output cells (memory is write-once). Verdict: VM error = rejected; \
                    success with the same decoded result = benign; success with a different result = VIOLATION. \
                    Non-trivial = distinct (run, static hint site, hint kind, fault class) actually injected.",
-            floor: |t| t.pick(3000, 40_000),
+            floor: |t| t.pick(3000, 25_000),
             shards: |_| 1,
             crash_is_violation: false,
             assumptions: &[
